@@ -279,6 +279,7 @@ class SimFS(object):
         self.write_events = 0
         self.fail_writes = None
         self.open_events = 0          # library open() calls on simulated paths
+        self.max_open = None          # descriptor limit: open() fails with EMFILE while this many library handles are open
         self.fail_opens = None        # {k}: the k-th such open raises EMFILE / EACCES (descriptor table full, unreadable file)
         self.faults_fired = {}
         self.short_rng = random.Random(short_seed) if short_seed is not None else None
@@ -317,6 +318,10 @@ class SimFS(object):
             return REAL_OPEN(path, mode, *a, **kw)    # RealFS backend: the real file system
         if 'b' not in mode:
             raise ValueError('SimFS only opens binary files')
+        if self.max_open is not None and len(self.leaked()) >= self.max_open:
+            # the process's descriptor table is full (RLIMIT_NOFILE): only handles the library itself holds are counted
+            self.faults_fired['emfile'] = self.faults_fired.get('emfile', 0) + 1
+            raise OSError(errno.EMFILE, 'Too many open files (descriptor limit %d)' % self.max_open, name)
         k = self.open_events
         self.open_events += 1
         if self.fail_opens is not None and k in self.fail_opens:
